@@ -188,8 +188,12 @@ func CheckRestartState(sys *core.Sys, specs []gen.PipeSpec, wantIDs []string, la
 		}
 	}
 	// the first request for every pipeline is accepted, and starts at once if there is no start delay
+	probes := map[string]string{}
 	for _, sp := range specs {
 		id, cls := sys.Schedule(0, sp.Name, nil, "probe")
+		if cls == "ok" && sp.Def.StartDelay == 0 {
+			probes[id] = sp.Name
+		}
 		if cls != "ok" {
 			find("C10:first-request-after-restart-rejected", "%s: the first schedule request for %s after the restart was rejected: %s", label, sp.Name, cls)
 			continue
@@ -211,7 +215,35 @@ func CheckRestartState(sys *core.Sys, specs []gen.PipeSpec, wantIDs []string, la
 		}
 		time.Sleep(100 * time.Microsecond)
 	}
+	// no accepted job is stranded: at a logical quiescence a probe may only still wait if a job that THIS runner started
+	// occupies its pipeline (jobs loaded from the store execute nothing)
+	if qv, err := sys.Quiesce(core.QuiesceOpts{Watchdog: 20 * time.Second}); err == nil {
+		for id, p := range probes {
+			j := qv.ByID(id)
+			if j == nil || !j.Waiting() {
+				continue
+			}
+			busy := false
+			for i := range qv.Jobs {
+				o := &qv.Jobs[i]
+				if o.Pipeline == p && o.Executing() && sys.WasStarted(o.ID) {
+					busy = true
+				}
+			}
+			if !busy {
+				find("C03:job-accepted-after-restart-never-starts", "%s: the job accepted for pipeline %s after the restart is still waiting at quiescence although no job of this runner occupies the pipeline", label, p)
+			}
+		}
+	}
 	return v
+}
+
+// restartProps: which properties a finding about a restarted runner refutes
+func restartProps(sig string) []string {
+	if len(sig) > 4 && sig[:4] == "C03:" || sig == "C10:first-request-after-restart-not-started" {
+		return []string{"C10", "C03"}
+	}
+	return []string{"C10"}
 }
 
 // checkRestarts: for every snapshot persisted during the history (explicit saves and the persist loop) start a fresh
@@ -220,7 +252,7 @@ func (q *seqRun) checkRestarts() {
 	final := q.view
 	saves := q.rec.Saves()
 	find := func(sig, format string, args ...any) {
-		q.res.Findings = append(q.res.Findings, Finding{Props: []string{"C10"}, Sig: sig, Detail: fmt.Sprintf(format, args...), Step: -1})
+		q.res.Findings = append(q.res.Findings, Finding{Props: restartProps(sig), Sig: sig, Detail: fmt.Sprintf(format, args...), Step: -1})
 	}
 	// what the HTTP API says about a finished job (GET /job/detail) must survive the restart as well: the handler
 	// derives part of its answer from in-memory values (error values, times) that are rebuilt from the store
@@ -303,7 +335,7 @@ func PreparedStoreCase(seed int64, workDir string) *HistResult {
 	r := rand.New(rand.NewSource(seed))
 	res := &HistResult{Seed: seed, Situations: map[string]map[string]struct{}{}, Evaluations: map[string]int{}}
 	find := func(sig, format string, args ...any) {
-		res.Findings = append(res.Findings, Finding{Props: []string{"C10"}, Sig: sig, Detail: fmt.Sprintf(format, args...), Step: -1})
+		res.Findings = append(res.Findings, Finding{Props: restartProps(sig), Sig: sig, Detail: fmt.Sprintf(format, args...), Step: -1})
 	}
 	specs := GenSpecs(r, HistOpts{NPipes: 1 + r.Intn(2), Pipe: gen.PipeOpts{MaxTasks: 4, DelayProb: 0.3}})
 	for i := range specs {
@@ -379,6 +411,7 @@ func PreparedStoreCase(seed int64, workDir string) *HistResult {
 		data.Jobs = append(data.Jobs, pj)
 		ids = append(ids, id.String())
 		res.sit("C10", fmt.Sprintf("prepared job state=%d tasks=%d", state, len(pj.Tasks)))
+		res.sit("C03", fmt.Sprintf("restart on a store with a job in state %d: the next request must not be stranded", state))
 	}
 	dir, err := os.MkdirTemp(workDir, "prepared-")
 	if err != nil {
